@@ -37,6 +37,9 @@ pub enum HOp {
         /// enumerate a database fault at every call index of this op (fault_enumeration)
         #[serde(default)]
         enumerate: bool,
+        /// F5: the faulty identity precompile returns a fatal error at its k-th call
+        #[serde(default)]
+        pfault: Option<u64>,
     },
     /// how: 0 = Evm::modify_spec_id, 1 = modify().with_spec_id().build()
     SetSpec { spec: String, how: u8 },
@@ -219,7 +222,11 @@ impl Engine for TwinSim {
                 c.w_ext = 8;
             };
         }
-        let world = gen_world(rng, &k);
+        let mut world = gen_world(rng, &k);
+        // F5 worlds: the identity precompile is replaced by one that can fail fatally
+        if self.mode != "C22" && rng.chance(1, 6) {
+            world.cfg.fault_precompile = true;
+        }
         let spec = world.cfg.spec_id();
         let insp_b = *rng.pick(&[InspKind::NoOp, InspKind::Gas, InspKind::Tracer, InspKind::Monitor]);
         let n = rng.range(2, 8);
@@ -289,7 +296,16 @@ impl Engine for TwinSim {
                         faults.at_calls.insert(rng.below(14));
                     }
                 }
-                HOp::Tx { tx, via, faults, enumerate }
+                // F5 (only in worlds built with the faulty identity precompile): aim the
+                // transaction at 0x04 and let its first or second call fail fatally
+                let mut pfault = None;
+                if world.cfg.fault_precompile && rng.chance(1, 2) {
+                    pfault = Some(rng.below(2));
+                    if rng.bool() {
+                        tx.to = Some(Address::with_last_byte(4));
+                    }
+                }
+                HOp::Tx { tx, via, faults, enumerate, pfault }
             };
             ops.push(op);
         }
@@ -494,8 +510,19 @@ pub fn run_twin(case: &TwinCase, mode: &str, stats: &mut Stats, mut calls_out: O
                     stats.inc("probe.fresh_instance_built");
                 }
                 let spec = a.evm().spec_id();
+                let pfault = match op {
+                    HOp::Tx { pfault, .. } => *pfault,
+                    _ => None,
+                };
+                let fired0 = precompile_faults_fired();
+                arm_precompile_fault(pfault);
                 let ra = run_tx(&mut a, tx, *via, faults, block_a.coinbase);
+                arm_precompile_fault(pfault);
                 let rb = run_tx(&mut b, tx, *via, faults, block_b.coinbase);
+                arm_precompile_fault(None);
+                if precompile_faults_fired() > fired0 {
+                    stats.inc("fault.F5_fatal_precompile_fired");
+                }
                 stats.inc(&format!("outcome.{}", ra.outcome.class().split(':').next().unwrap_or("")));
                 fp.s(&ra.outcome.class());
                 if ra.outcome.is_db_err() || ra.second.as_ref().map(|s| s.is_db_err()).unwrap_or(false) {
@@ -644,7 +671,7 @@ pub fn run_twin(case: &TwinCase, mode: &str, stats: &mut Stats, mut calls_out: O
     }
     if stats.samples.is_empty() {
         stats.samples.push(json!({"mode": mode, "spec": w.cfg.spec, "stack": format!("{:?}", w.cfg.stack), "insp_b": format!("{:?}", case.insp_b),
-            "ops": case.ops.iter().map(|o| match o { HOp::Tx { tx, via, faults, enumerate } => format!("tx to {:?} gas {} via {via:?} faults {:?} enumerate {enumerate}", tx.to, tx.gas_limit, faults.at_calls), other => format!("{other:?}") }).collect::<Vec<_>>() }));
+            "ops": case.ops.iter().map(|o| match o { HOp::Tx { tx, via, faults, enumerate, .. } => format!("tx to {:?} gas {} via {via:?} faults {:?} enumerate {enumerate}", tx.to, tx.gas_limit, faults.at_calls), other => format!("{other:?}") }).collect::<Vec<_>>() }));
     }
     let mut seen = std::collections::BTreeSet::new();
     out.retain(|v| seen.insert(v.class_key()));
